@@ -26,7 +26,11 @@ def jobs_for(tier):
     j = []
     # n = 2, 3: every pattern, three value palettes, every kind and parameter, with and without filtered dofs
     for k in ALL:
-        j.append(("n<=3 %s" % k, cfg_text([2, 3], [k], [1, 2, 3], 0, 99, 1)))
+        if k in ("poly", "ssor", "sor", "ilu"):
+            for pl in (1, 2, 3):      # the expensive kinds are sharded over the value palette
+                j.append(("n<=3 %s pal%d" % (k, pl), cfg_text([2, 3], [k], [pl], 0, 99, 1)))
+        else:
+            j.append(("n<=3 %s" % k, cfg_text([2, 3], [k], [1, 2, 3], 0, 99, 1)))
     j.append(("n=1", cfg_text([1], ALL, [1, 2], 0, 0, 0)))
     if tier == "thorough":
         # n = 4: every pattern for the substitution-based kinds, sharded over the number of off-diagonal entries
